@@ -17,7 +17,7 @@ from sim import island
 
 GRID = 0.005
 
-STRATA = ('core', 'nofault', 'disc_fail', 'cancel', 'prune_all', 'prune_busy', 'big', 'tight', 'tight_nofault')
+STRATA = ('core', 'nofault', 'disc_fail', 'cancel', 'cancel_woken', 'prune_all', 'prune_busy', 'big', 'tight', 'tight_nofault')
 
 # probes: name -> (class attr, how to count).  Wrappers never change behaviour.
 _PROBE_METHODS = (
@@ -221,7 +221,11 @@ class World:
         c['nprune'] = t.draw(4, 'nprune') if faulty and t.draw(2, 'f_prune') else 0
         c['nstall'] = t.draw(3, 'nstall') if faulty and t.draw(3, 'f_stall') == 2 else 0
         c['pdfail'] = t.pick([10, 30, 60], 'pdfail') if st == 'disc_fail' else 0
-        c['pcancel'] = t.pick([10, 25, 60], 'pcancel') if st == 'cancel' else 0
+        c['pcancel'] = t.pick([10, 25, 60], 'pcancel') if st in ('cancel', 'cancel_woken') else 0
+        # stratum cancel_woken: a release is followed, in the same instant, by the cancellation of the request that
+        # is first in line on that database - the waiter has been woken but has not run yet (draws are conditional on
+        # the stratum, so the tapes of all other strata keep their meaning)
+        c['pcancel_woken'] = t.pick([20, 50, 90], 'pcancel_woken') if st == 'cancel_woken' else 0
         c['nprune_all'] = 1 + t.draw(2, 'nprune_all') if st == 'prune_all' else 0
         self.cfg = c
         return c
@@ -647,6 +651,11 @@ class World:
                     self.violate('C15', 'I8', f'release-raised-{type(e).__name__}',
                                  f'release({dbname!r}, {conn!r}) of a lent connection raised {e!r}')
                     return
+            if c['pcancel_woken'] and self.tape.chance(c['pcancel_woken'], 100, 'c_cancel_woken'):
+                first = [j for j, rec in self.pending_acq.items() if rec[0] == dbname]
+                if first:
+                    self.probes['cancel_right_after_release'] += 1
+                    self.cancel_client(min(first, key=self.acq_serial.get))
             if rno + 1 < len(rounds):
                 self.sleeping += 1
                 try:
